@@ -97,7 +97,7 @@ def run_catalogue(ctx, binary):
         finds, n, _ = c02_check.judge_program(res, e["meta"])
         nobs += n
         for cls, what in finds:
-            ctx.report("catalogue:" + e["name"], "boundary case `%s`: %s" % (e["name"], what),
+            ctx.report(e.get("cls") or "catalogue:" + e["name"], "boundary case `%s`: %s" % (e["name"], what),
                        {"entry": e["name"], "program": e["src"], "observed": res.brief(),
                         "how": "write `program` to m.ms in an empty directory; MSCRIPT_VERIF_TYPED_PRINT=1 mscript run m.ms -q"})
     return {"entries": len(ents), "accepted": sum(1 for v in verdicts.values() if v == "accept"),
